@@ -1,4 +1,6 @@
 import Firebolt.Spec.Params
+import Firebolt.Generated.Source
+import Firebolt.Expected.Source
 /-!
 # C20 — Node and Kafka client parameters are validated and passed through faithfully
 
@@ -312,5 +314,21 @@ example :
                           ("librdkafka.{topic}.auto.offset.reset", "latest"), ("librdkafka.fetch.min.bytes", "3")]
     overlay base params = ⟨[("group.id", "g"), ("session.timeout.ms", "5"), ("fetch.min.bytes", "3")], some [("auto.offset.reset", "latest")]⟩ := by
   decide +kernel
+
+
+/-! ### the functions this model was transcribed from are unchanged (regenerated from /repo on every run) -/
+theorem source_applyLibrdkafkaConf : GeneratedSrc.applyLibrdkafkaConf = ExpectedSrc.applyLibrdkafkaConf := by rfl
+theorem source_kcBuildConfigMap : GeneratedSrc.kcBuildConfigMap = ExpectedSrc.kcBuildConfigMap := by rfl
+theorem source_kcCheckConfig : GeneratedSrc.kcCheckConfig = ExpectedSrc.kcCheckConfig := by rfl
+theorem source_rcBuildConfigMap : GeneratedSrc.rcBuildConfigMap = ExpectedSrc.rcBuildConfigMap := by rfl
+theorem source_mrBuildConfigMap : GeneratedSrc.mrBuildConfigMap = ExpectedSrc.mrBuildConfigMap := by rfl
+theorem source_kpBuildConfigMap : GeneratedSrc.kpBuildConfigMap = ExpectedSrc.kpBuildConfigMap := by rfl
+theorem source_kpCheckConfig : GeneratedSrc.kpCheckConfig = ExpectedSrc.kpCheckConfig := by rfl
+theorem source_hIntConfig : GeneratedSrc.hIntConfig = ExpectedSrc.hIntConfig := by rfl
+theorem source_hIntConfigRequired : GeneratedSrc.hIntConfigRequired = ExpectedSrc.hIntConfigRequired := by rfl
+theorem source_hStringConfig : GeneratedSrc.hStringConfig = ExpectedSrc.hStringConfig := by rfl
+theorem source_hStringConfigRequired : GeneratedSrc.hStringConfigRequired = ExpectedSrc.hStringConfigRequired := by rfl
+theorem source_hFloat64Config : GeneratedSrc.hFloat64Config = ExpectedSrc.hFloat64Config := by rfl
+theorem source_hFloat64ConfigRequired : GeneratedSrc.hFloat64ConfigRequired = ExpectedSrc.hFloat64ConfigRequired := by rfl
 
 end Firebolt.C20
